@@ -186,6 +186,10 @@ theorem stepInst_inv {x x' : Inst} {e : Ev} (inv : LInv x) (h : stepInst x e = .
     intro c; split <;> simp
   · exact stepCtxDone_inv inv h
   · exact stepDemote_inv inv h
+  · -- the term's duration is reported: a marker only
+    cases h
+    obtain ⟨c1, c2, c3, c4, c5, c6, c7, c8, c9, c10, c11, c12, c13, c14⟩ := inv
+    exact ⟨c1, c2, c3, c4, c5, c6, c7, c8, c9, c10, c11, c12, c13, c14⟩
   · split at h
     · cases h
     · cases h; exact inv
